@@ -66,12 +66,16 @@ class Extrema(FragmentTask):
     prop = "C18"
     reach = "S"
     qual = ME + "find_min_max"
-    first = staticmethod(lambda s: s.__class__.__name__ == "If" and "finest_lv" in __import__("ast").unparse(s.test))
+    # the statement (an if) whose branches assign `minimum`
+    first = staticmethod(lambda s: s.__class__.__name__ == "If" and any(FragmentTask.assigns("minimum")(x) for x in s.body) and
+                         any(FragmentTask.assigns("minimum")(x) for x in s.orelse))
     last = first
 
-    def __init__(self, nlevels, finest):
+    def __init__(self, nlevels, finest, min_max=None):
+        """finest: -f given; min_max: -m given (default: exactly one of the two).  With both, the finest level is asked for."""
         self.nlevels, self.finest = nlevels, finest
-        self.name = f"find_min_max.extrema[levels={nlevels},{'finest' if finest else 'all'}]"
+        self.min_max = (not finest) if min_max is None else min_max
+        self.name = f"find_min_max.extrema[levels={nlevels},{'finest' if finest else 'all'}" + (",both options]" if finest and self.min_max else "]")
 
     def setup(self, ex):
         ctx = ex.ctx
@@ -84,7 +88,7 @@ class Extrema(FragmentTask):
         field = "the_field"
         cells = [{"mins": {field: NDArray([NB[lv]], lambda ix, lv=lv: MINS(lv, to_z3(ix[0])), "f8")},
                   "maxs": {field: NDArray([NB[lv]], lambda ix, lv=lv: MAXS(lv, to_z3(ix[0])), "f8")}} for lv in range(nl)]
-        self_ = Record("amr_kitchen.menu.menu.Menu", finest_lv=self.finest, cells=cells, limit_level=nl - 1)
+        self_ = Record("amr_kitchen.menu.menu.Menu", finest_lv=self.finest, min_max=self.min_max, cells=cells, limit_level=nl - 1)
         return {"frame": {"self": self_, "field": field}, "NB": NB, "MINS": MINS, "MAXS": MAXS}
 
     def post(self, ex, inp, out):
@@ -109,7 +113,7 @@ class Extrema(FragmentTask):
 
 
 def tasks(tier):
-    out = [TableCoverage(), Extrema(2, False), Extrema(2, True)]
+    out = [TableCoverage(), Extrema(2, False), Extrema(2, True), Extrema(2, True, True)]
     if tier == "thorough":
         out += [Extrema(1, False), Extrema(3, False), Extrema(3, True)]
     return out
